@@ -14,7 +14,8 @@
 // Oracle, in two stages, none of them hand-written expectations:
 //  1. differential, no build needed: after the last compile of the history the output directory must hold
 //     the same files with the same bytes as a fresh compile of the final sources into an empty
-//     directory (nothing ignored except file timestamps; the scratch root in EntryPath is spelled $ROOT),
+//     directory (nothing ignored except file timestamps; the scratch root in EntryPath is spelled $ROOT;
+//     entries of Go map literals are sorted, the generator emits them in map-iteration order - canon.go),
 //     and both compiles must agree on accept / reject.
 //  2. behavioural, decides: every DISTINCT output directory reached (identical ones collapse; on a
 //     correct tree that is one per reachable project state) becomes a package of one Go module, is built
@@ -91,9 +92,15 @@ type hist struct {
 	Init string `json:"init"` // "fresh": no output directory yet | "legacy": old single-file layout left in it
 	X    bool   `json:"x"`    // sub/Extra.php present from the start
 	Ops  []hop  `json:"ops"`
+	// Names, when set, makes this a file-name case instead of a history: one compile of a project whose
+	// two library files carry these names (every pair of the name alphabet is enumerated).
+	Names []string `json:"names,omitempty"`
 }
 
 func (h hist) String() string {
+	if len(h.Names) > 0 {
+		return "compile a project with the library files " + strings.Join(h.Names, " and ")
+	}
 	s := []string{"compile[outdir " + h.Init + map[bool]string{true: ", with sub/Extra.php", false: ""}[h.X] + "]"}
 	for _, o := range h.Ops {
 		s = append(s, o.String(), "compile")
@@ -132,6 +139,30 @@ var hfiles = map[string]*hfile{
 		"<?php\nfunction extra_tag($n) { return \"extra r1 y\" . ($n * 3); }\necho \"extra loaded r1\\n\";\n",
 		"<?php\nfunction extra_tag($n) { $r = []; for ($i = 0; $i < $n; $i++) { $r[] = $i * $i; } return \"extra r2 \" . implode(\",\", $r); }\n",
 	}},
+}
+
+// File-name alphabet: the compile command maps every source path to one Go identifier and one Go file
+// name inside a single flat package. Names that differ only in case, in _ / - versus camel case, or in
+// characters that cannot appear in an identifier are the interesting neighbours.
+var hnamesQuick = []string{"Lib.php", "lib.php", "user_login.php", "UserLogin.php", "user-login.php", "a.b.php", "ab.php", "sub/x.php", "sub_x.php"}
+var hnamesMore = []string{"userLogin.php", "userlogin.php", "sub/X.php", "subX.php", "Sub/x.php", "x.inc.php", "xinc.php", "ete\u0301.php", "sub/sub/x.php", "sub_sub/x.php"}
+
+func nameSources(names []string) map[string]string {
+	m := map[string]string{"index.php": "<?php\necho \"names \", nm_a(), \"|\", nm_b(), \"\\n\";\n"}
+	for i, n := range names {
+		m[n] = fmt.Sprintf("<?php\nfunction nm_%c() { return \"%c from %s\"; }\n", 'a'+i, 'A'+i, n)
+	}
+	return m
+}
+
+func stateSrcs(st hstate) map[string]string {
+	m := map[string]string{}
+	for _, k := range hfileOrder {
+		if r := st.rev[k]; r >= 0 && r != brokenRev {
+			m[hfiles[k].rel] = hfiles[k].revs[r]
+		}
+	}
+	return m
 }
 
 const hBroken = "<?php\nfunction lib_tag( { return ;\n"
@@ -181,11 +212,12 @@ func initState(x bool) hstate {
 type hbound struct {
 	depth       int
 	legacyDepth int
-	touch       bool
+	touchSteps  int      // touch ops are in the alphabet of the first touchSteps steps only
+	names       []string // file-name alphabet (all unordered pairs)
 }
 
 // applicable lists the alphabet in a state, in a fixed order.
-func applicable(s hstate, b hbound) []hop {
+func applicable(s hstate, b hbound, step int) []hop {
 	var ops []hop
 	modes := []string{"old", "keep", "gen", "new"}
 	for _, f := range hfileOrder {
@@ -201,7 +233,7 @@ func applicable(s hstate, b hbound) []hop {
 				ops = append(ops, hop{Kind: "edit", File: f, Rev: r, Mode: m})
 			}
 		}
-		if b.touch && cur != brokenRev {
+		if step < b.touchSteps && cur != brokenRev {
 			for _, m := range []string{"old", "new"} {
 				ops = append(ops, hop{Kind: "touch", File: f, Mode: m})
 			}
@@ -337,6 +369,9 @@ func (w *hworker) readTree(dir string) map[string]string {
 		b, _ := os.ReadFile(p)
 		rel, _ := filepath.Rel(base, p)
 		m[rel] = strings.ReplaceAll(string(b), w.root, "$ROOT")
+		if strings.HasSuffix(rel, ".go") {
+			m[rel] = canonGo(m[rel])
+		}
 		return nil
 	})
 	return m
@@ -489,14 +524,17 @@ type hres struct {
 	OkF   bool   // a fresh compile of the same sources succeeds
 	DiagH string // output of the last compile of the history
 	Same  bool   // output directory identical to the fresh one
+	SameG bool   // ... at least its *.go files are
 	Diff  string
 	Class string // identifies (content of the output directory, final sources)
 	Err   string // machinery problem
+	NGen  int    // file-name cases: number of ast_*.go files generated
 }
 
 type hclass struct {
 	key     string
 	st      hstate
+	srcs    map[string]string // the final sources, relative to src/
 	files   map[string]string
 	same    bool // identical to the fresh compile of st
 	example hist
@@ -508,7 +546,7 @@ type hregistry struct {
 	classes map[string]*hclass
 }
 
-func classKey(files map[string]string, st hstate) string {
+func classKey(files map[string]string, srcKey string) string {
 	var names []string
 	for n := range files {
 		names = append(names, n)
@@ -518,8 +556,18 @@ func classKey(files map[string]string, st hstate) string {
 	for _, n := range names {
 		fmt.Fprintf(h, "%s\x00%d\x00%s\x00", n, len(files[n]), files[n])
 	}
-	fmt.Fprintf(h, "|%s", st.key())
+	fmt.Fprintf(h, "|%s", srcKey)
 	return hex.EncodeToString(h.Sum(nil))[:20]
+}
+
+func goFiles(m map[string]string) map[string]string {
+	g := map[string]string{}
+	for n, c := range m {
+		if strings.HasSuffix(n, ".go") {
+			g[n] = c
+		}
+	}
+	return g
 }
 
 func diffTrees(d, f map[string]string) string {
@@ -563,11 +611,15 @@ func (w *hworker) observe(h hist, okH bool, diagH string, reg *hregistry) hres {
 	d := w.readTree("out")
 	r.Diff = diffTrees(d, fr.files)
 	r.Same = r.Diff == ""
-	r.Class = classKey(d, w.st)
+	// what is built and run is the Go package in the directory: directories with the same *.go files and the
+	// same final sources are one case of the behavioural stage (a cache manifest or the go.mod may differ)
+	dg, fg := goFiles(d), goFiles(fr.files)
+	r.Class = classKey(dg, w.st.key())
+	r.SameG = diffTrees(dg, fg) == ""
 	reg.mu.Lock()
 	cl := reg.classes[r.Class]
 	if cl == nil {
-		cl = &hclass{key: r.Class, st: w.st.clone(), files: d, same: r.Same, example: r.H}
+		cl = &hclass{key: r.Class, st: w.st.clone(), srcs: stateSrcs(w.st), files: dg, same: r.SameG, example: r.H}
 		reg.classes[r.Class] = cl
 	} else if len(r.H.Ops) < len(cl.example.Ops) {
 		cl.example = r.H
@@ -579,6 +631,9 @@ func (w *hworker) observe(h hist, okH bool, diagH string, reg *hregistry) hres {
 
 // runLinear executes one history from scratch (replay, and the reference for the tree walk).
 func (w *hworker) runLinear(h hist, reg *hregistry) hres {
+	if len(h.Names) > 0 {
+		return w.runNames(h, reg)
+	}
 	if err := w.reset(h); err != nil {
 		return hres{H: h, Err: err.Error()}
 	}
@@ -592,6 +647,40 @@ func (w *hworker) runLinear(h hist, reg *hregistry) hres {
 	return w.observe(h, ok, diag, reg)
 }
 
+// runNames: one compile of the two-library project with the given file names into an empty directory.
+func (w *hworker) runNames(h hist, reg *hregistry) hres {
+	os.RemoveAll(w.p("src"))
+	os.RemoveAll(w.p("out"))
+	w.st = hstate{rev: map[string]int{}}
+	srcs := nameSources(h.Names)
+	for n, c := range srcs {
+		p := w.p("src", n)
+		os.MkdirAll(filepath.Dir(p), 0o755)
+		if err := os.WriteFile(p, []byte(c), 0o644); err != nil {
+			return hres{H: h, Err: err.Error()}
+		}
+	}
+	ok, diag := w.compile("out")
+	r := hres{H: h, State: "names:" + strings.Join(h.Names, "|"), OkH: ok, OkF: ok, DiagH: lastLines(diag, 4), Same: true, SameG: true}
+	if !ok {
+		return r
+	}
+	dg := goFiles(w.readTree("out"))
+	for n := range dg {
+		if strings.HasPrefix(n, "ast_") {
+			r.NGen++
+		}
+	}
+	r.Class = classKey(dg, r.State)
+	reg.mu.Lock()
+	if reg.classes[r.Class] == nil {
+		reg.classes[r.Class] = &hclass{key: r.Class, srcs: srcs, files: dg, same: true, example: h}
+	}
+	reg.classes[r.Class].n++
+	reg.mu.Unlock()
+	return r
+}
+
 // explore walks the history tree below the current on-disk state (depth first, restoring a snapshot
 // of sources + output directory + mtimes before every sibling): one compile per history.
 func (w *hworker) explore(h hist, b hbound, depth int, reg *hregistry, emit func(hres)) {
@@ -599,7 +688,7 @@ func (w *hworker) explore(h hist, b hbound, depth int, reg *hregistry, emit func
 		return
 	}
 	sn := w.capture()
-	for _, op := range applicable(w.st, b) {
+	for _, op := range applicable(w.st, b, len(h.Ops)) {
 		if err := w.restore(sn); err != nil {
 			emit(hres{H: h, Err: err.Error()})
 			return
@@ -719,12 +808,10 @@ func behave(classes []*hclass, repo, overlay string) (map[string]*hbres, string)
 		c := &pc{name: fmt.Sprintf("q%04d", i), cl: cl}
 		res[cl.key] = &hbres{built: true}
 		croot := filepath.Join(m, "cases", c.name)
-		for _, k := range hfileOrder {
-			if r := cl.st.rev[k]; r >= 0 && r != brokenRev {
-				p := filepath.Join(croot, "src", hfiles[k].rel)
-				os.MkdirAll(filepath.Dir(p), 0o755)
-				os.WriteFile(p, []byte(hfiles[k].revs[r]), 0o644)
-			}
+		for n, content := range cl.srcs {
+			p := filepath.Join(croot, "src", n)
+			os.MkdirAll(filepath.Dir(p), 0o755)
+			os.WriteFile(p, []byte(content), 0o644)
 		}
 		c.entry = filepath.Join(croot, "src", "index.php")
 		// non-entry files in the order the compile command (and its Register()) visits them
@@ -824,9 +911,11 @@ type histOut struct {
 	compiles int64
 	err      string
 	capped   int
+	enumWall float64 // seconds spent enumerating histories (compiles + byte comparison)
+	behWall  float64 // seconds spent building and running the distinct directories
 }
 
-const maxSuspectClasses = 300
+const maxSuspectClasses = 100
 
 // runHistories enumerates every history inside the bound (or runs the given ones from scratch).
 func runHistories(explicit []hist, b hbound, cli, repo, overlay string, workers int) histOut {
@@ -838,6 +927,7 @@ func runHistories(explicit []hist, b hbound, cli, repo, overlay string, workers 
 	}
 	defer os.RemoveAll(base)
 	reg := &hregistry{classes: map[string]*hclass{}}
+	t0 := time.Now()
 	type task struct {
 		h     hist
 		whole bool // run h from scratch and stop (replay); otherwise h is a root whose subtree is walked
@@ -860,8 +950,15 @@ func runHistories(explicit []hist, b hbound, cli, repo, overlay string, workers 
 				continue
 			}
 			// one task per first op: the subtrees are independent and of similar size
-			for _, op := range applicable(initState(init.x), b) {
+			for _, op := range applicable(initState(init.x), b, 0) {
 				tasks = append(tasks, task{h: hist{Init: init.name, X: init.x, Ops: []hop{op}}, depth: init.depth})
+			}
+		}
+	}
+	if explicit == nil {
+		for i, a := range b.names {
+			for _, bn := range b.names[i+1:] {
+				tasks = append(tasks, task{h: hist{Names: []string{a, bn}}, whole: true})
 			}
 		}
 	}
@@ -896,6 +993,7 @@ func runHistories(explicit []hist, b hbound, cli, repo, overlay string, workers 
 	}
 	close(ch)
 	wg.Wait()
+	ho.enumWall = time.Since(t0).Seconds()
 	sort.Slice(ho.results, func(i, j int) bool {
 		a, b := ho.results[i].H, ho.results[j].H
 		if len(a.Ops) != len(b.Ops) {
@@ -937,21 +1035,13 @@ func runHistories(explicit []hist, b hbound, cli, repo, overlay string, workers 
 		suspect = suspect[:maxSuspectClasses]
 	}
 	var berr string
+	t1 := time.Now()
 	ho.beh, berr = behave(append(same, suspect...), repo, overlay)
+	ho.behWall = time.Since(t1).Seconds()
 	if berr != "" {
 		ho.err = berr
 	}
 	return ho
-}
-
-func isSubseq(a, b []hop) bool {
-	i := 0
-	for _, o := range b {
-		if i < len(a) && a[i] == o {
-			i++
-		}
-	}
-	return i == len(a)
 }
 
 func stateSources(key string) string {
@@ -980,6 +1070,48 @@ func judgeHistories(c *ev.Check, ho histOut) (states int64) {
 	var fails []failing
 	for _, r := range ho.results {
 		states++
+		if len(r.H.Names) > 0 {
+			// file-name case: one fresh compile; a rejection must carry a diagnostic, an accepted project
+			// must build and behave like the interpreted sources
+			var srcs strings.Builder
+			for n, s := range nameSources(r.H.Names) {
+				fmt.Fprintf(&srcs, "--- src/%s\n%s", n, s)
+			}
+			sig := "distinct-generated-files"
+			if r.NGen < len(r.H.Names)+1 {
+				sig = "same-generated-file"
+			}
+			cs := item{ID: "names/" + sig, Hist: &hist{Names: r.H.Names}}
+			b := ho.beh[r.Class]
+			switch {
+			case !r.OkH:
+				c.Outcome("names:rejected")
+				if strings.TrimSpace(r.DiagH) == "" {
+					c.Fail("silent-reject:names/"+sig, "reported-compile-error", len(r.State), cs, "the compile command failed without a diagnostic on "+r.H.String())
+				}
+			case b == nil || (b.built && !b.ran):
+			case !b.built:
+				c.Outcome("names:" + sig + "/does-not-build")
+				c.Fail("generated-code-does-not-compile:names/"+sig, "reported-compile-error", len(r.State), cs,
+					fmt.Sprintf("%s: accepted (%d source files -> %d generated ast_*.go files), but the generated package does not build:\n%s\n%s", r.H.String(), len(r.H.Names)+1, r.NGen, b.buildErr, srcs.String()))
+			case b.compiled != b.interp:
+				c.Outcome("names:" + sig + "/behaviour-differs")
+				clause := "diagnostic"
+				switch {
+				case b.compiled.Kind != b.interp.Kind || b.compiled.Exit != b.interp.Exit:
+					clause = "outcome"
+				case b.compiled.Out != b.interp.Out:
+					clause = "stdout"
+				}
+				cb, _ := json.Marshal(b.compiled)
+				ib, _ := json.Marshal(b.interp)
+				c.Fail(clause+":names/"+sig, "compiled-equals-interpreted", len(r.State), cs,
+					fmt.Sprintf("%s: accepted, %d source files -> %d generated ast_*.go files\ninterpreted: %s\ncompiled:    %s\n%s", r.H.String(), len(r.H.Names)+1, r.NGen, ib, cb, srcs.String()))
+			default:
+				c.Outcome("names:" + sig + "/behaviour-equal")
+			}
+			continue
+		}
 		switch {
 		case r.OkH != r.OkF:
 			c.Outcome("hist:accept-mismatch")
@@ -1000,8 +1132,10 @@ func judgeHistories(c *ev.Check, ho histOut) (states int64) {
 				continue
 			}
 			tag := "hist:identical-to-fresh"
-			if !r.Same {
+			if !r.SameG {
 				tag = "hist:bytes-differ"
+			} else if !r.Same {
+				tag = "hist:go-files-identical-to-fresh"
 			}
 			switch {
 			case !b.built:
@@ -1026,29 +1160,26 @@ func judgeHistories(c *ev.Check, ho histOut) (states int64) {
 			}
 		}
 	}
-	// reduction: a failing history is explained by a shorter failing one whose ops are a subsequence
-	// of its ops (the enumeration is closed under dropping steps wherever the ops stay applicable)
-	var minimal []failing
+	// reduction to finding keys. A failing history is reduced to the sequence of its op classes
+	// (edit-not-newer, edit-newer, add-*, delete, recompile, change-pkg, break, touch; "legacy-outdir" in front
+	// for the legacy initial directory); the enumeration is closed under dropping steps, so a failing class
+	// sequence that contains a shorter failing one as a subsequence is explained by it and not reported
+	// again. The kind of divergence (stdout / outcome / diagnostic) is not part of the key: the root
+	// cause of a history finding is what the reused directory holds, not how the program shows it.
+	type group struct {
+		kinds []string
+		typ   string
+		fs    []failing
+	}
+	groups := map[string]*group{}
+	var order []*group
 	for _, f := range fails {
-		if f.r.Same && f.r.OkH && f.r.OkF {
+		if f.r.SameG && f.r.OkH && f.r.OkF {
 			// the directory equals a fresh compile: the project state itself is mistranslated, no history needed
 			c.Fail(f.clause+":hist/project", f.what, 0, item{ID: "hist/project/" + f.r.State, Hist: &f.r.H},
 				fmt.Sprintf("project state %s, already wrong when compiled into an empty directory\n%s\n%s", f.r.State, f.detail, stateSources(f.r.State)))
 			continue
 		}
-		explained := false
-		for _, g := range minimal {
-			if len(g.r.H.Ops) < len(f.r.H.Ops) && (g.r.H.Init == "fresh" || g.r.H.Init == f.r.H.Init) && isSubseq(g.r.H.Ops, f.r.H.Ops) {
-				explained = true
-				break
-			}
-		}
-		if !explained {
-			minimal = append(minimal, f)
-		}
-	}
-	c.Set("histories_failing", len(fails))
-	for _, f := range minimal {
 		var kinds []string
 		if f.r.H.Init != "fresh" {
 			kinds = append(kinds, f.r.H.Init+"-outdir")
@@ -1056,13 +1187,56 @@ func judgeHistories(c *ev.Check, ho histOut) (states int64) {
 		for _, o := range f.r.H.Ops {
 			kinds = append(kinds, o.kind())
 		}
-		if len(kinds) == 0 {
-			kinds = []string{"first-compile"}
+		typ := "reused-outdir"
+		switch f.clause {
+		case "silent-accept", "spurious-reject", "silent-reject":
+			typ = "reused-outdir-" + f.clause
+		case "generated-code-does-not-compile":
+			typ = "reused-outdir-does-not-build"
 		}
-		key := f.clause + ":hist/" + strings.Join(kinds, "+")
-		c.Fail(key, f.what, len(f.r.H.Ops), item{ID: "hist/" + strings.Join(kinds, "+"), Hist: &f.r.H},
-			fmt.Sprintf("history: %s\nfinal sources: %s\noutput directory vs a fresh compile of the final sources: %s\n%s\n%s",
-				f.r.H.String(), f.r.State, orStr(f.r.Diff, "identical"), f.detail, stateSources(f.r.State)))
+		k := typ + ":" + strings.Join(kinds, "+")
+		g := groups[k]
+		if g == nil {
+			g = &group{kinds: kinds, typ: typ}
+			groups[k] = g
+			order = append(order, g)
+		}
+		g.fs = append(g.fs, f)
+	}
+	sort.SliceStable(order, func(i, j int) bool { return len(order[i].kinds) < len(order[j].kinds) })
+	subseq := func(a, b []string) bool {
+		i := 0
+		for _, x := range b {
+			if i < len(a) && a[i] == x {
+				i++
+			}
+		}
+		return i == len(a)
+	}
+	var minimal []*group
+	for _, g := range order {
+		explained := false
+		for _, m := range minimal {
+			if len(m.kinds) < len(g.kinds) && subseq(m.kinds, g.kinds) {
+				explained = true
+				break
+			}
+		}
+		if !explained {
+			minimal = append(minimal, g)
+		}
+	}
+	c.Set("histories_failing", len(fails))
+	for _, g := range minimal {
+		name := strings.Join(g.kinds, "+")
+		if name == "" {
+			name = "first-compile"
+		}
+		for _, f := range g.fs {
+			c.Fail(g.typ+":"+name, f.what, len(f.r.H.Ops), item{ID: "hist/" + name, Hist: &f.r.H},
+				fmt.Sprintf("history: %s\nfinal sources: %s\noutput directory vs a fresh compile of the final sources: %s\n%s\n%s",
+					f.r.H.String(), f.r.State, orStr(f.r.Diff, "identical"), f.detail, stateSources(f.r.State)))
+		}
 	}
 	return states
 }
